@@ -102,8 +102,10 @@ def _non_default_config(hp_range: Domain) -> Hyperparameter:
     midpoint = hp_range.cast(midpoint)
     lower = hp_range.value_type(lower)
     upper = hp_range.value_type(upper)
+    # ``np.clip`` returns a NumPy scalar: convert back to the value type of the
+    # domain
     midpoint = np.clip(midpoint, lower, upper)
-    return midpoint
+    return hp_range.value_type(midpoint)
 
 
 def _to_tuple(config: Dict[str, Any], keys: List) -> Tuple:
